@@ -871,8 +871,9 @@ def r34_run_idempotence(ctx, include=None, rule='R34'):
     if fl is not None and fl.methods.get('_chain') is not None:
         ch = fl.methods['_chain']
         for c_ in ast.walk(ch.node):
-            if isinstance(c_, ast.Call) and isinstance(c_.func, ast.Call) and isinstance(c_.func.func, ast.Name):
-                for t in ctx.res._resolve_callee(c_.func.func, ch.module, ch):
+            # (every class Flow._chain instantiates: row_processor(link)(ds, ..) or processor = iterable_loader(link); processor(ds, ..))
+            if isinstance(c_, ast.Call) and isinstance(c_.func, ast.Name):
+                for t in ctx.res._resolve_callee(c_.func, ch.module, ch):
                     if hasattr(t, 'mro'):
                         per_run_helpers.add(t.name)
     for c in sorted(ctx.repo.classes.values(), key=lambda c: c.qualname):
